@@ -1978,6 +1978,13 @@ func (c *Conn) handleFutureLegacyPacket(
 }
 
 func (c *Conn) legacyReplayMarker(header *recordlayer.Header) (func() bool, bool) {
+	if header.Epoch == 0 {
+		// Records of epoch 0 are not authenticated. If they moved the anti-replay
+		// window, one forged record with a large sequence number would make every
+		// genuine record of the handshake look too old. Repeated handshake messages
+		// are recognised by their message sequence instead.
+		return func() bool { return false }, true
+	}
 	common := dtlsstate.CommonState(c.state)
 	for len(common.ReplayDetector) <= int(header.Epoch) {
 		common.ReplayDetector = append(common.ReplayDetector,
@@ -2271,9 +2278,10 @@ func (c *Conn) handleIncomingPacket(
 
 	r := &recordlayer.RecordLayer{}
 	if err := r.Unmarshal(prepared.buf); err != nil {
-		if prepared.header.Epoch == 0 && errors.Is(err, dtlserrors.ErrInvalidContentType) {
-			// An unprotected record of no known content type is not a DTLS record:
-			// discard it silently [RFC6347 Section-4.1.2.7].
+		if prepared.header.Epoch == 0 {
+			// An unprotected record that does not decode (unknown content type, truncated
+			// alert, ...) may come from anybody: discard it silently instead of aborting
+			// the association [RFC6347 Section-4.1.2.7].
 			return packetOutcome{}, nil
 		}
 
